@@ -25,6 +25,8 @@ git -C /repo worktree remove --force $ev
 echo "confirm $id: apply=$res_apply tests_with_patch=$res_tests demo_with_patch=$res_demo_with demo_without_patch=$res_demo_without pkg=$pkgdir"
 # checks against /repo with the patch applied
 checks="$@"; [ -z "$checks" ] && checks=$id
+# the checks below run against a PATCHED tree: keep the evidence of the unchanged tree aside and put it back afterwards
+evsave=$(mktemp -d /tmp/evsave.XXXXXX); cp /verif/evidence/*.json $evsave/ 2>/dev/null
 git -C /repo apply $src/patch.diff || { echo "cannot apply to /repo"; exit 2; }
 out=""
 for c in $checks; do
@@ -34,4 +36,5 @@ for c in $checks; do
   echo "$r" | head -4
 done
 git -C /repo checkout -- .
+cp $evsave/*.json /verif/evidence/ 2>/dev/null; rm -rf $evsave
 git -C /repo status --short | head -3
